@@ -18,8 +18,8 @@ CHECKS = {
     "C03": ("Lean 4 proof (refinement counter = holders) + differential correspondence",
             "C03_counter_is_holders (every reachable state), C03_press / C03_release / C03_last_release_only: exact output per collision mode in terms of holders.", ""),
     "C04": ("Lean 4 proof + differential correspondence",
-            "C04_press / C04_resolve (note, channel, velocity formula in unbounded integers, silent out of range), C04_pair_reset, C04_bounds, C04_unit_step_partial, C04_init_partial, C04_wrap_witness.",
-            "Partial: octave/semitone are int8 in the code; unit-step and initial-state theorems carry a no-wrap hypothesis (witness theorem shows it is needed)."),
+            "C04_press / C04_resolve (note, channel, velocity formula in unbounded integers, silent out of range), C04_pair_reset, C04_bounds, C04_unit_step, C04_init, C04_monitor (no monitor failure on any key-only history), C04_source_facts (octave/semitone are int fields).",
+            "Go int modelled as unbounded integers."),
     "C05": ("Lean 4 proof (invariant over all events incl. axes) + differential correspondence",
             "C05_run: every message of every run of an accepted configuration with in-range axis events is a well-formed 3-byte channel message; C05_cleanup for the disconnect.",
             "Deadzones that are NaN/Inf/≥1 are outside the theorem (in-range hypothesis)."),
